@@ -118,7 +118,10 @@ def handle (args : List Sexp) : String :=
       else if fmt == .text && single == 0 then
         -- three-way comparison: the statement-level specifications on the extracted rows (`Spec/Pipeline.lean`)
         match Spec.Pipeline.specText F defs query files with
-        | some (ro, cls) => a ++ " ## " ++ showRunOut ro ++ " ## " ++ (if cls.isEmpty then "e2e-spec-mismatch" else cls)
+        | some (ro, cls) => a ++ " ## " ++ showRunOut ro ++ " ## " ++ (if cls.isEmpty then "e2e-spec-mismatch" else cls) ++
+            (match Spec.Pipeline.predictedText F defs query files with
+              | some pr => " ## " ++ showRunOut pr
+              | none => "")
         | none => a
       else a
     | none, _, _, _, _, _ => "bad-defs"
